@@ -43,4 +43,34 @@ def search_packing(job):
     return {"violated": False}
 
 
+
+def search_write(job):
+    """writes into and around a merged rectangle, and writes into header cells after a formula printed a label (C09's cache)"""
+    import os, sys, warnings
+    sys.path.insert(0, os.path.dirname(os.path.dirname(os.path.abspath(__file__))))
+    from bounded import c12_merges as M
+    warnings.simplefilter("ignore")
+    for rect in ([0, 0, 1, 1], [1, 0, 2, 1], [0, 1, 1, 3], [2, 1, 3, 2], [1, 2, 3, 3]):
+        case = {"size": 4, "rects": [rect], "write_after": True, "reopen": False}
+        r = M.run_case(case)
+        if r:
+            return {"violated": True, "detail": r["detail"], "job": {"custom": "replay_write", "case": case}}
+    try:
+        from bounded import c09_refs as R9
+        r = R9.quick_label_history() if hasattr(R9, "quick_label_history") else None
+        if r:
+            return {"violated": True, "detail": r, "job": {"custom": "search_write"}}
+    except Exception:  # noqa: BLE001
+        pass
+    return {"violated": False}
+
+
+def replay_write(job):
+    import os, sys
+    sys.path.insert(0, os.path.dirname(os.path.dirname(os.path.abspath(__file__))))
+    from bounded import c12_merges as M
+    r = M.run_case(job["case"])
+    return {"violated": bool(r), "detail": (r or {}).get("detail", "")}
+
+
 NATIVE = {}
